@@ -20,10 +20,17 @@ REPO = os.path.abspath(os.environ.get("VERIF_REPO", "/repo"))
 NCPU = min(16, os.cpu_count() or 4)
 
 
+# VERIF_INSTRUMENT=overflow: the same sources built with integer-overflow checks and debug assertions switched on (the Rust
+# counterpart of -fsanitize=signed-integer-overflow,unsigned-integer-overflow with -fno-sanitize-recover): an arithmetic
+# overflow that the plain release build wraps silently becomes a panic the monitors see.
+INSTRUMENT = os.environ.get("VERIF_INSTRUMENT", "")
+
+
 def _key():
+    suffix = ("-" + INSTRUMENT) if INSTRUMENT else ""
     if REPO == "/repo":
-        return "repo"
-    return "r" + hashlib.sha1(REPO.encode()).hexdigest()[:10]
+        return "repo" + suffix
+    return "r" + hashlib.sha1(REPO.encode()).hexdigest()[:10] + suffix
 
 
 BUILD = os.path.join(VERIF, ".build", _key())
@@ -72,6 +79,10 @@ def ensure_built(verbose=False):
     env = dict(os.environ)
     env["CARGO_NET_OFFLINE"] = "true"
     env.pop("RUSTFLAGS", None)
+    if INSTRUMENT == "overflow":
+        env["RUSTFLAGS"] = "-C overflow-checks=on -C debug-assertions=on"
+    elif INSTRUMENT:
+        raise Inconclusive("unknown VERIF_INSTRUMENT=%r" % INSTRUMENT)
     with open(os.path.join(BUILD, "lock"), "w") as lk:
         fcntl.flock(lk, fcntl.LOCK_EX)
         hdir = os.path.join(BUILD, "harness")
@@ -432,7 +443,8 @@ class Stats:
     def merge(self, o):
         self.c.update(o.c)
         for k, v in o.sets.items():
-            self.sets[k] |= v
+            if len(self.sets[k]) < 2000000:      # bounded memory; the evidence then reports a lower bound
+                self.sets[k] |= v
         for s in o.samples:
             if len(self.samples) < 12:
                 self.samples.append(s)
@@ -522,11 +534,22 @@ class Ctx:
             for it in items:
                 self.stats.merge(func(it))
             return
-        with multiprocessing.get_context("fork").Pool(min(nproc, len(items))) as pool:
-            for st in pool.imap_unordered(_guard(func), items):
-                if isinstance(st, tuple) and st and st[0] == "__exc__":
-                    raise Inconclusive("worker failed: " + st[1])
-                self.stats.merge(st)
+        # ProcessPoolExecutor (unlike multiprocessing.Pool) notices a worker that was killed (out of memory, signal): the run is
+        # then inconclusive instead of waiting for ever for the lost result
+        import concurrent.futures as cf
+        from concurrent.futures.process import BrokenProcessPool
+        with cf.ProcessPoolExecutor(max_workers=min(nproc, len(items)), mp_context=multiprocessing.get_context("fork")) as pool:
+            futs = [pool.submit(_guard(func), it) for it in items]
+            try:
+                for fu in cf.as_completed(futs):
+                    st = fu.result()
+                    if isinstance(st, tuple) and st and st[0] == "__exc__":
+                        for o in futs:
+                            o.cancel()
+                        raise Inconclusive("worker failed: " + st[1])
+                    self.stats.merge(st)
+            except BrokenProcessPool:
+                raise Inconclusive("a worker process was killed (out of memory?) - nothing can be concluded from this run")
 
     def finish(self):
         st = self.stats
